@@ -1,5 +1,7 @@
 import ComposeVerif.Model.Marshal
 import ComposeVerif.Lemmas.Marshal
+import ComposeVerif.Model.Encode
+import ComposeVerif.Lemmas.Encode
 import ComposeVerif.Spec.RoundTrip
 import ComposeVerif.Gen.Types
 import ComposeVerif.Neg.C09
@@ -201,5 +203,143 @@ theorem custom_roundtrip_SSHConfig_partial :
     (marshalJ_SSHConfig (.seq [mkSSHKey "default" ""])).bind decode_SSHConfig = .ok (.seq [mkSSHKey "default" ""]) ∧
     (marshalJ_SSHConfig .null).bind decode_SSHConfig = .ok .null := by
   refine ⟨?_, ?_, ?_⟩ <;> rfl
+
+/-- whenever a round trip holds, rendering the reloaded value gives the same rendering again -/
+theorem render_idem_of_roundtrip (marshal decode : Val → Out) (v : Val) (h : (marshal v).bind decode = .ok v) :
+    ((marshal v).bind decode).bind marshal = marshal v := by
+  rw [h]; rfl
+
+/-! ## the tag-driven encoding: every field under its key, omitempty lossless -/
+
+open CV.Encode
+
+/-- **Struct rendering is faithful** (both encoders, any descriptor list with distinct keys): in a successful rendering
+    every keyed field is either present under its own key with the rendering of its value, or absent — and absent
+    exactly when its tag says `omitempty` and the value is zero.  So decoding by key recovers each field or its zero. -/
+theorem struct_fields_rendered (fmt : Fmt) (enc : TyExpr → Val → Out) (zero : TyExpr → Val → Bool)
+    (fds : List FieldDesc) (fs out : List (String × Val))
+    (hni : NoInline fmt fds fs) (hnd : ((fds.filter (keyed fmt)).map (keyOf fmt)).Nodup)
+    (h : encodeFieldsWith fmt enc zero fds fs = .ok (.map out)) :
+    ∀ fd ∈ fds, keyed fmt fd = true →
+      (omitted fmt zero fs fd = true ∧ Val.lookup (keyOf fmt fd) out = none) ∨
+      (omitted fmt zero fs fd = false ∧ ∃ t, enc fd.ty (field fs fd.goName) = .ok t ∧ Val.lookup (keyOf fmt fd) out = some t) :=
+  encodeFields_field fmt enc zero fds fs out hni hnd h
+
+theorem nodupB_nodup : ∀ l : List String, nodupB l = true → l.Nodup := by
+  intro l
+  induction l with
+  | nil => intro _; exact List.nodup_nil
+  | cons x r ih =>
+    intro h
+    simp only [nodupB, Bool.and_eq_true, Bool.not_eq_true', List.contains_eq_mem, decide_eq_false_iff_not] at h
+    exact List.nodup_cons.mpr ⟨h.1, ih h.2⟩
+
+theorem renderedYamlKeys_eq (s : StructDesc) :
+    renderedYamlKeys s = (s.fields.filter (keyed .yaml)).map (keyOf .yaml) := by
+  unfold renderedYamlKeys
+  induction s.fields with
+  | nil => rfl
+  | cons fd r ih =>
+    obtain ⟨gn, ty, ex, yk, ys, yo, yi, jk, js, jo⟩ := fd
+    simp only [List.filterMap_cons, List.filter_cons]
+    cases ex <;> cases ys <;> cases yi <;> first | exact ih | exact congrArg (List.cons yk) ih
+
+theorem renderedJsonKeys_eq (s : StructDesc) :
+    renderedJsonKeys s = (s.fields.filter (keyed .json)).map (keyOf .json) := by
+  unfold renderedJsonKeys
+  induction s.fields with
+  | nil => rfl
+  | cons fd r ih =>
+    obtain ⟨gn, ty, ex, yk, ys, yo, yi, jk, js, jo⟩ := fd
+    simp only [List.filterMap_cons, List.filter_cons]
+    cases ex <;> cases js <;> first | exact ih | exact congrArg (List.cons jk) ih
+
+/-- the hypothesis of `struct_fields_rendered` holds for every model type of the source as it is now -/
+theorem model_struct_keys_nodup (s : StructDesc) (hs : s ∈ Gen.structs)
+    (hm : (modelTypes Gen.structs Gen.namedTypes).contains s.name = true) (fmt : Fmt) :
+    ((s.fields.filter (keyed fmt)).map (keyOf fmt)).Nodup := by
+  have h := keys_distinct
+  simp only [KeysDistinct, List.all_eq_true] at h
+  have h1 := h s hs
+  simp only [hm, Bool.not_true, Bool.false_or, Bool.and_eq_true] at h1
+  cases fmt with
+  | yaml => rw [← renderedYamlKeys_eq]; exact nodupB_nodup _ h1.1
+  | json => rw [← renderedJsonKeys_eq]; exact nodupB_nodup _ h1.2
+
+/-- what a missing key decodes to, with nil and empty identified -/
+def ZeroLike : TyExpr → Val → Prop
+  | .prim _, v => primZero v = true
+  | .other _, v => primZero v = true
+  | .ptr _, v => v = .null
+  | .slice _, v => v = .null ∨ v = .seq []
+  | .map _, v => v = .null ∨ v = .map []
+  | .named _, _ => True
+
+/-- **omitempty is lossless, YAML**: per kind, a value the encoder leaves out is the zero value of its type -/
+theorem omitempty_lossless_yaml (env : Env) (f : Nat) (ty : TyExpr) (v : Val) (h : isZeroY env f ty v = true) :
+    ZeroLike ty v := by
+  cases f with
+  | zero => simp [isZeroY] at h
+  | succ f =>
+    cases ty with
+    | prim p => simpa [isZeroY, ZeroLike] using h
+    | other p => simpa [isZeroY, ZeroLike] using h
+    | ptr e => cases v <;> simp_all [isZeroY, ZeroLike]
+    | slice e =>
+      cases v with
+      | seq xs => cases xs <;> simp_all [isZeroY, ZeroLike]
+      | _ => simp_all [isZeroY, ZeroLike]
+    | map e =>
+      cases v with
+      | map xs => cases xs <;> simp_all [isZeroY, ZeroLike]
+      | _ => simp_all [isZeroY, ZeroLike]
+    | named n => trivial
+
+/-- **omitempty is lossless, JSON** -/
+theorem omitempty_lossless_json (env : Env) (f : Nat) (ty : TyExpr) (v : Val) (h : isEmptyJ env f ty v = true) :
+    ZeroLike ty v := by
+  cases f with
+  | zero => simp [isEmptyJ] at h
+  | succ f =>
+    cases ty with
+    | prim p => simpa [isEmptyJ, ZeroLike] using h
+    | other p => simpa [isEmptyJ, ZeroLike] using h
+    | ptr e => cases v <;> simp_all [isEmptyJ, ZeroLike]
+    | slice e =>
+      cases v with
+      | seq xs => cases xs <;> simp_all [isEmptyJ, ZeroLike]
+      | _ => simp_all [isEmptyJ, ZeroLike]
+    | map e =>
+      cases v with
+      | map xs => cases xs <;> simp_all [isEmptyJ, ZeroLike]
+      | _ => simp_all [isEmptyJ, ZeroLike]
+    | named n => trivial
+
+/-- a type with `IsZero` (ShellCommand) is left out only when nil: an explicitly empty command is kept -/
+theorem omitempty_keeps_empty_command (env : Env) (f : Nat) (n : String) (v : Val)
+    (hz : hasMethod env n "IsZero" = true) : isZeroY env (f + 1) (.named n) v = true ↔ v = .null := by
+  cases v <;> simp [isZeroY, hz]
+
+example : hasMethod { structs := Gen.structs, named := Gen.namedTypes, customs := Gen.customMethods } "ShellCommand" "IsZero" = true := by decide
+
+/-- a struct-valued field is never left out of the JSON rendering, and out of the YAML one only when all its
+    exported fields are zero -/
+theorem struct_omission (env : Env) (f : Nat) (n : String) (s : StructDesc) (fs : List (String × Val))
+    (hs : findStruct env.structs n = some s) (hz : hasMethod env n "IsZero" = false) :
+    isEmptyJ env (f + 1) (.named n) (.map fs) = false ∧
+    (isZeroY env (f + 1) (.named n) (.map fs) = true ↔
+      ∀ fd ∈ s.fields, fd.exported = true → isZeroY env f fd.ty (field fs fd.goName) = true) := by
+  constructor
+  · simp [isEmptyJ, hs]
+  · simp only [isZeroY, hz, hs, Bool.false_eq_true, if_false, List.all_eq_true, Bool.or_eq_true, Bool.not_eq_true']
+    constructor
+    · intro h fd hm he
+      rcases h fd hm with h1 | h1
+      · rw [he] at h1; cases h1
+      · exact h1
+    · intro h fd hm
+      cases he : fd.exported with
+      | false => exact Or.inl rfl
+      | true => exact Or.inr (h fd hm he)
 
 end CV.C09
